@@ -159,7 +159,7 @@ func hashConc(iters int, seed int64, problem func(string)) (lookups, updates int
 	for ki, k := range kinds {
 		for _, how := range []string{"add-remove", "refresh"} {
 			rng := rand.New(rand.NewSource(seed + int64(ki)))
-			n := 20 + rng.Intn(41)
+			n := 16 + rng.Intn(25)
 			var base []endpoint.Endpoint
 			for i := 0; i < n; i++ {
 				base = append(base, hep(i))
@@ -208,7 +208,7 @@ func hashConc(iters int, seed int64, problem func(string)) (lookups, updates int
 					}
 				}(g)
 			}
-			cycles := iters/75 + 5
+			cycles := iters/250 + 3
 			for c := 0; c < cycles; c++ {
 				atomic.AddInt64(&updates, 2)
 				if how == "add-remove" {
